@@ -173,7 +173,7 @@ def run_scalars(omp, res, seed):
                 v.bad("C17.accepts", "legal-call-raises:" + type(e).__name__, "%s %r: %r" % (k, x, e), kind=k)
         # numpy pointer arguments
         base = (np.arange(24) % 100 + 1).astype(dt)
-        views = [("whole", base), ("offset-slice", base[5:]), ("strided-slice", base[3::2]), ("2d-subblock", base.reshape(4, 6)[1:, 2:]), ("reversed", base[::-1]), ("one-element", base[7:8]), ("f-order", np.asfortranarray(base.reshape(4, 6))[2:, 1:])]
+        views = [("whole", base), ("offset-slice", base[5:]), ("strided-slice", base[3::2]), ("2d-subblock", base.reshape(4, 6)[1:, 2:]), ("reversed", base[::-1]), ("one-element", base[7:8]), ("f-order", np.asfortranarray(base.reshape(4, 6))[2:, 1:]), ("zero-dim", base[9:10].reshape(()))]
         for vname, a in views:
             res.transitions += 2
             res.events["numpy-pointer"] += 1
